@@ -567,9 +567,28 @@ class Builder:
         n2 = "a2" if r.random() < 0.5 else "z"
         if two and n2 == "a2":
             c.features.add("prefix_names")
+        # ---- binds outside VALUES of an insertmanyvalues statement: ON CONFLICT .. SET / WHERE, an
+        # independent CTE (add_cte), a SELECT CTE referenced from a scalar subquery inside VALUES
+        dname = self.caps.get("name", "sqlite")
+        if dname == "sqlite":
+            from sqlalchemy.dialects.sqlite import insert as I
+        elif dname == "postgresql":
+            from sqlalchemy.dialects.postgresql import insert as I
+        else:
+            I = sa.insert
+        upsert = I is not sa.insert and r.random() < 0.3
+        indep_cte = r.random() < 0.25
+        cte_in_values = named and r.random() < 0.15
+        u = self.env.u
+        fixed = {k: self.al.int("free") for k in ("ub_", "cx_", "cv_")}
+        fixed["uw_"] = self.al.int("a")
+        fixed["us_"] = self.al.str()
+        existing = self.al.pick([row[0] for row in T_ROWS], 3) if upsert else []
         rows = []
         for _ in range(n):
             row = {"id": self.al.int("newid"), "a": self.al.int("a"), "b": self.al.int("b"), "s": self.al.str(), "g": self.al.int("g")}
+            if existing and r.random() < 0.5:
+                row["id"] = existing.pop()      # conflicts with a stored row: DO UPDATE
             if two:
                 row[n2] = self.al.int("free")
             c.nbinds += len(row)
@@ -588,23 +607,51 @@ class Builder:
                 a_expr = P("a", sa.Integer)
                 if two:
                     a_expr = a_expr + P(n2, sa.Integer)
-                vd = {"id": P("id", sa.Integer), "a": a_expr, "b": P("b", sa.Integer), "s": P("s", sa.String), "g": P("g", sa.Integer)}
-                return sa.insert(t).values({k: vd[k] for k in order})
+                b_expr = P("b", sa.Integer)
+                if cte_in_values:
+                    vc = sa.select(u.c.id).where(u.c.x > sa.bindparam("cv_", fixed["cv_"])).cte("vc")
+                    b_expr = b_expr + sa.select(sa.func.count()).select_from(vc).scalar_subquery()
+                vd = {"id": P("id", sa.Integer), "a": a_expr, "b": b_expr, "s": P("s", sa.String), "g": P("g", sa.Integer)}
+                return I(t).values({k: vd[k] for k in order})
 
             stmt = mk()
             rows = [{pfx + k: v for k, v in row.items()} for row in rows]
             c.ref_rows = mk
         else:
-            stmt = sa.insert(t)
+            stmt = I(t)
             rows = [dict(r.sample(list(row.items()), len(row))) for row in rows]
             c.ref_rows = lambda row, stmt=stmt: stmt.values(row)
+
+        def post_values(st):
+            if upsert:
+                st = st.on_conflict_do_update(
+                    index_elements=[t.c.id],
+                    set_={"s": sa.bindparam("us_", fixed["us_"]), "b": st.excluded.b + sa.bindparam("ub_", fixed["ub_"])},
+                    where=(t.c.a != sa.bindparam("uw_", fixed["uw_"])))
+            if indep_cte:
+                st = st.add_cte(sa.select(u.c.id).where(u.c.x > sa.bindparam("cx_", fixed["cx_"])).cte("ic"))
+            return st
+
+        if upsert:
+            c.features.add("upsert")
+            c.nbinds += 3
+        if indep_cte:
+            c.features.add("independent_cte")
+            c.nbinds += 1
+        if cte_in_values:
+            c.features.add("cte_in_values")
+            c.nbinds += 1
+        if upsert or indep_cte:
+            stmt = post_values(stmt)
+            base0 = c.ref_rows
+            c.ref_rows = lambda row, base0=base0: post_values(base0(row))
         c.multi = rows
         ret = self.caps.get("insert_returning", True) and r.random() < 0.6
         if ret:
             c.features.add("returning")
             # sort_by_parameter_order with the PK delivered through a differently named bind trips an
             # internal assertion in _deliver_insertmanyvalues_batches (sentinel bookkeeping; C12's domain)
-            c.ordered = r.random() < 0.5 and not named
+            c.ordered = r.random() < 0.5 and not named and not upsert
             k1, k2 = self.al.int("free"), self.al.int("free")
             c.nbinds += 2
             stmt = stmt.returning(t.c.id, (t.c.a + sa.bindparam("k1_", k1)).label("r0"), sa.bindparam("k2_", k2).label("r1"),
